@@ -509,7 +509,7 @@ def tree(root):
 
 
 def run(ctx):
-    ctx.check_proofs(["MPilot.Props.C12"])
+    ctx.check_proofs(["MPilot.Props.C12", "MPilot.Props.C12Kinds"])
     from .. import eems
     eems.arrays_lib()       # commands of a library no program here asks for are registered in the process
     model = common.Model()
